@@ -46,9 +46,9 @@ def run(chk):
 
     chk.absorb(vlib.run_sharded(asan, SMALL_CASES_T if T else SMALL_CASES, chk.seed, chk.tier, ['--mode', 'small'] + skip, tag='c17b', env=ENV, timeout=TO),
                'node-lists-exhaustive-len<=%d(asan)' % (6 if T else 5))
-    chk.absorb(vlib.run_sharded(asan, 2000000 if T else 40000, chk.seed, chk.tier, ['--mode', 'line'] + skip, tag='c17c', env=ENV, timeout=TO),
+    chk.absorb(vlib.run_sharded(asan, 1500000 if T else 40000, chk.seed, chk.tier, ['--mode', 'line'] + skip, tag='c17c', env=ENV, timeout=TO),
                'random-node-lists(asan)')
-    chk.absorb(vlib.run_sharded(asan, 500000 if T else AREA_ENUM + 12000, chk.seed, chk.tier, ['--mode', 'area'] + skip, tag='c17d', env=ENV, timeout=TO),
+    chk.absorb(vlib.run_sharded(asan, 400000 if T else AREA_ENUM + 12000, chk.seed, chk.tier, ['--mode', 'area'] + skip, tag='c17d', env=ENV, timeout=TO),
                'areas(asan)')
     chk.assumptions = [
         'decoders written from the format definitions: OGC SFS 1.1 WKB (both byte orders), PostGIS EWKB SRID flag (SRID must be the EPSG code of the '
